@@ -23,6 +23,7 @@ class QResult:
     self.live_trace = []
     self.instrumented = None
     self.nqueries = 0
+    self.cur_after_queries = []     # (number of steps run so far, current_state() asked right after client queries)
 
 
 def run(spec, start, ext_ops, cfg, pre_start_ops=(), max_steps=400, query_rng=None):
@@ -124,11 +125,18 @@ def run(spec, start, ext_ops, cfg, pre_start_ops=(), max_steps=400, query_rng=No
         except Exception:
           pass          # child_state of a state that is not on the active path fails by contract
         res.nqueries += 1
+      if chart.instrumented:
+        # the chart took no step: current_state() must still name the state it rests in
+        res.cur_after_queries.append((len(res.steps), chart.current_state()))
       run_.reset_logs()
     try:
       drain()
       queries()
       for kind, sig in ext_ops:
+        if kind in ('clear_spy', 'clear_trace'):
+          # the client empties the full spy / trace between two steps (the object is idle)
+          getattr(chart, kind)()
+          continue
         ev = Event(signal=sig)
         with gate:
           if kind == 'fifo':
